@@ -5,7 +5,8 @@
   `TooManySamples`, `ShortBlock`, or end of data.
 -/
 import FlacModel.Props.C07
-import FlacModel.Props.C01c
+import FlacModel.Props.C14
+import FlacModel.Proofs.DecodeFacts
 
 namespace Flac.C07
 open Flac Gen
@@ -61,7 +62,7 @@ theorem loop_refines (p : Profile) (si : SInfo) (s : Stream) (t : Nat) (ht : s.t
         subst hb
         have hl := Flac.C14.loc_of_decodes p si f dd hdec hu
         obtain ⟨hn, hh⟩ := hl.hdr tail
-        have hck := Flac.C01.decodeFrame_check p (some si) f dd hdec
+        have hck := Flac.decodeFrame_check p (some si) f dd hdec
         simp only [hh, hck, Bool.not_true, Bool.false_eq_true, if_false, hov, Bool.true_and]
         have hge : t ≥ d.cur := hcur
         simp only [hge, decide_true, Bool.true_and, if_true, hbs]
